@@ -173,6 +173,20 @@ static string execOp(const vector<string>& f) {
     writeOnce(it->second, f[2] == "m", f[3] == "-" ? nullptr : &pre, unesc(f[4]), &code, &h, &used);
     return "w\t" + std::to_string(code) + "\t" + h + "\t" + std::to_string(used);
   }
+  if (op == "K16") {
+    // KNX 16 bit float helpers: K16 from to -> k <value %.9g>:<re-encoded hex>:<decode of the re-encoded %.9g>;...
+    std::ostringstream k;
+    k << "k\t";
+    unsigned long from = strtoul(f[1].c_str(), nullptr, 10), to = strtoul(f[2].c_str(), nullptr, 10);
+    char buf[96];
+    for (unsigned long v = from; v < to && v < 65536; v++) {
+      float x = uint16ToFloat((uint16_t)v);
+      uint16_t re = x != x ? (uint16_t)0x7fff : floatToUint16(x);   // (encoding NaN is not part of any statement)
+      snprintf(buf, sizeof(buf), "%.9g:%04x:%.9g;", (double)x, (unsigned)re, (double)uint16ToFloat(re));
+      k << buf;
+    }
+    return k.str();
+  }
   if (op == "RT") {
     auto it = g_fields.find(f[1]);
     if (it == g_fields.end()) return "t\t\t-999\t";
